@@ -583,11 +583,10 @@ def gen_hcase(rng):
             keep = 1 if rng.random() < 0.5 else 0
             u = rng.random()
             if active:
-                # keep the unsigned counters of the library away from wrap-around (the model has no wrap)
-                if cur and u < 0.75:
-                    i = rng.choice(cur)
-                elif len(cur) >= 1 and enact >= 1 and n > 0 and u < 0.85:
-                    i = rng.randrange(n)
+                if cur and u < 0.55:
+                    i = rng.choice(cur)                       # a member of the encounter
+                elif n > 0 and u < 0.88:
+                    i = rng.randrange(n)                      # member or not
                 else:
                     i = rng.choice([n, -1, n + 3])
             else:
@@ -596,17 +595,14 @@ def gen_hcase(rng):
             hybrid = kind != "none"
             ok = 0 <= i < n and not nvar and not (tree and (keep or hybrid))
             if ok:
-                if active:
+                if active and not (kind == "trace" and mode == 3):
                     if i in cur:
                         pos = cur.index(i)
                         if pos < enact: enact -= 1
-                        cur = cur[:pos] + [v - 1 for v in cur[pos + 1:]]
-                    else:
-                        cur = cur[:-1]
-                        if kind == "merc": enact -= 1
+                    cur = [v - 1 if v > i else v for v in cur if v != i]
                 if not (tree and not keep and not hybrid):
                     n -= 1
-                if n == 0 or (active and not cur):
+                if n == 0:
                     break
         else:
             if cap >= n + 1 or kind != "trace":         # TRACE: keep current_Ks inside the prefilled allocation (no realloc garbage)
@@ -765,12 +761,16 @@ def hybrid_check(ctx, libdir):
             break
         if act and c["ops"] and c["ops"][0][0] == "rmi" and x["rows"][0][0] == 1:
             live = c["emap"][:c["eN"]]; i0 = c["ops"][0][1]
-            if i0 in live:
+            if True:
                 exp = [v for v in live if v < i0] + [v - 1 for v in live if v > i0]
-                if x["rows"][0][4] != exp or x["rows"][0][5] != len(exp):
+                pos = live.index(i0) if i0 in live else -1
+                exp_act = c["eNact"] - (1 if 0 <= pos < c["eNact"] else 0)
+                if x["rows"][0][4] != exp or x["rows"][0][5] != len(exp) or x["rows"][0][6] != exp_act:
                     ctx.violation("encounter_map_renumbering", {"state": {k: c[k] for k in ("kind", "mode", "n0", "emap", "eN", "eNact")}, "op": c["ops"][0],
-                                  "encounter_map_after": x["rows"][0][4], "encounter_N_after": x["rows"][0][5], "expected": exp}, True,
-                                  "after removing a particle of the encounter list, encounter_map is not the renumbered list without it")
+                                  "encounter_map_after": x["rows"][0][4], "encounter_N_after": x["rows"][0][5], "encounter_N_active_after": x["rows"][0][6],
+                                  "expected_map": exp, "expected_N_active": exp_act, "member": pos >= 0}, True,
+                                  "after a removal during the encounter step, encounter_map / encounter_N / encounter_N_active are not the renumbered "
+                                  "list without the particle (counts must change iff it was a member)")
                     break
     # library-only oracle for TRACE current_Ks: after a successful removal in mode 1/3 the live matrix must be the old
     # matrix with row and column [index] deleted
@@ -1186,6 +1186,9 @@ def run(ctx):
     # ---------------- tree re-insertion under MERCURIUS / TRACE
     tree_reinsert_probe(ctx, build_default(ctx))
 
+    # ---------------- remove-all and the variational configurations
+    remove_all_var_config_probe(ctx, build_default(ctx))
+
     # ---------------- remove-all under a tree
     remove_all_tree_probe(ctx, build_default(ctx))
 
@@ -1565,6 +1568,46 @@ def tree_reinsert_probe(ctx, libdir):
                               "the tree update's re-insertion of a moved particle is booked by %s as a new particle: encounter_N grows past "
                               "N_allocated / encounter_map is written behind its allocation" % integ)
     ctx.obligation("searcher:C14 tree re-insertion probe ran (%d runs)" % n, n > 0, "")
+
+
+REMOVE_ALL_VARCFG_SCRIPT = r"""# reb_simulation_remove_all_particles resets N_var but leaves N_var_config / var_config: the stale configuration still
+# points at index N_real_old of the old particle array. Functions that walk the variational configurations
+# (move_to_com, integrator steps, ...) then treat slots of the NEW array as variational particles.
+import rebound, warnings, sys
+warnings.simplefilter("ignore")
+n0 = int(sys.argv[1]) if len(sys.argv) > 1 else 3
+s = rebound.Simulation()
+s.add(m=1.)
+for k in range(n0 - 1):
+    s.add(m=1e-3, a=1. + 0.01 * k, f=0.1 * k)
+s.add_variation()
+print("before: N", s.N, "N_var", s.N_var, "N_var_config", s.N_var_config)
+del s.particles
+print("after del: N", s.N, "N_var", s.N_var, "N_var_config", s.N_var_config)
+s.add(m=1., x=1.); s.add(m=1., x=3.)
+s.move_to_com()
+print("after move_to_com: x =", [p.x for p in s.particles], "(expected [-1.0, 1.0])")
+"""
+
+
+def remove_all_var_config_probe(ctx, libdir):
+    """remove-all must also drop the variational configurations (they index the removed particles)."""
+    d = os.path.join(vlib.BUILD, "cases"); os.makedirs(d, exist_ok=True)
+    f = os.path.join(d, "c14_remove_all_var_config.py"); open(f, "w").write(REMOVE_ALL_VARCFG_SCRIPT)
+    n = 0
+    for n0 in (3, 130):
+        try:
+            r = vlib.run_py(libdir, f, [n0], timeout=120)
+        except subprocess.TimeoutExpired:
+            ctx.obligation("searcher:C14 remove-all / var_config probe completes", False, "timeout"); return
+        n += 1; ctx.evaluations += 1
+        m = re.search(r"after del: N (\d+) N_var (\d+) N_var_config (\d+)", r.stdout or "")
+        if r.returncode != 0 or not m or m.group(1) != "0" or m.group(2) != "0" or m.group(3) != "0":
+            ctx.violation("remove_all_leaves_var_config", {"real_particles_before": n0, "exit": r.returncode, "stdout": (r.stdout or "")[-400:],
+                                                           "repro": "build/cases/c14_remove_all_var_config.py %d" % n0}, True,
+                          "after reb_simulation_remove_all_particles N / N_var / N_var_config are not all 0: stale variational configurations index the removed particles")
+            break
+    ctx.obligation("searcher:C14 remove-all / var_config probe ran (%d sizes)" % n, True, "")
 
 def drive_variation(libdir):
     script = r'''
